@@ -251,3 +251,41 @@ def run(repo: Repo, rep: Report, tier: str) -> None:
     for k in sorted({w.key for w in row_w}):
         w = [x for x in row_w if x.key == k][0]
         rep.check(k in row_r, "C07-R4", f"condition-row key '{k}' written by {w.f.short} is emitted", "read by _configure_decider_multi_condition" if k in row_r else "row key has no reader", w.loc)
+
+    # ---------------- R5 ---------------------------------------------------------------
+    rep.rule("C07-R5", "the signal-name table is one object shared by identity: the planner's analyzer writes the names it allocates into it and the emitter reads them back for entity "
+             "conditions; so both pipelines hand the same expression to LayoutPlanner and BlueprintEmitter, every class on the writer chain stores the parameter itself "
+             "(no copy, no `or {}` default, which silently detaches an empty table), and the emitter is built after the layout was planned")
+    writers5 = []
+    for c5 in repo.all_classes():
+        if any(isinstance(n, ast.Subscript) and isinstance(n.ctx, ast.Store) and norm(n.value) == "self.signal_type_map" for m5 in c5.methods.values() for n in walk_local(m5.node)):
+            writers5.append(c5)
+    chain5 = list(writers5)
+    for c5 in repo.all_classes():
+        init5 = c5.methods.get("__init__")
+        if init5 is None or c5 in chain5:
+            continue
+        if any(call_name(k) in {w.name for w in writers5} and any(norm(a) == "self.signal_type_map" for a in list(k.args) + [kw.value for kw in k.keywords]) for m5 in c5.methods.values() for k in calls_in(m5.node)):
+            chain5.append(c5)
+    rep.floor("C07-R5", "classes on the writer chain of the signal-name table", len(chain5), 2)
+    for c5 in chain5:
+        init5 = c5.methods.get("__init__")
+        st5 = [n for n in walk_local(init5.node) if isinstance(n, ast.Assign) and norm(n.targets[0]) == "self.signal_type_map"] if init5 else []
+        ok5 = len(st5) == 1 and isinstance(st5[0].value, ast.Name) and st5[0].value.id in init5.params
+        rep.check(ok5, "C07-R5", f"{c5.name} keeps the caller's signal-name table (identity, no copy)", norm(st5[0].value) if st5 else "no store",
+                  init5.loc(st5[0]) if st5 else c5.loc())
+    for f5 in cfs:
+        c5n = canon(f5)
+        lp5 = calls_in(f5.node, "LayoutPlanner")
+        em5 = calls_in(f5.node, "BlueprintEmitter")
+        a5 = c5n.text(lp5[0].args[0]) if lp5 and lp5[0].args else (c5n.text(kwarg(lp5[0], "signal_type_map")) if lp5 and kwarg(lp5[0], "signal_type_map") is not None else "")
+        b5 = c5n.text(em5[0].args[1]) if em5 and len(em5[0].args) > 1 else (c5n.text(kwarg(em5[0], "signal_type_map")) if em5 and kwarg(em5[0], "signal_type_map") is not None else "")
+        cfg5 = CFG(f5.node)
+        st_of = {id(x): st for st in cfg5.stmts() for x in ast.walk(st)} if (lp5 and em5) else {}
+        plan5 = [st for st in cfg5.stmts() if not isinstance(st, (ast.If, ast.For, ast.Try, ast.With, ast.While)) and any(call_name(k) == "plan_layout" for k in calls_in(st))]
+        est5 = [st for st in cfg5.stmts() if not isinstance(st, (ast.If, ast.For, ast.Try, ast.With, ast.While)) and any(call_name(k) == "BlueprintEmitter" for k in calls_in(st))]
+        after5 = bool(plan5) and bool(est5) and cfg5.dominates(plan5[0], est5[0])
+        rep.check(bool(a5) and a5 == b5 and after5, "C07-R5", f"{f5.short}: planner and emitter receive the same signal-name table, emitter built after planning",
+                  f"table {a5[-50:]!r}; emitter after plan_layout: {after5}" if a5 == b5 else f"planner gets {a5[-50:]!r}, emitter gets {b5[-50:]!r}", f5.loc())
+    from .shared import borrow as _borrow7
+    _borrow7(repo, rep, "C09", "C09-R5", "C07-R6", "static properties of placed entities reach the blueprint: only the frozen bookkeeping keys are skipped, whatever their value")
